@@ -213,8 +213,13 @@ def _kw_loop(m: MethodNF, ctx) -> KwMatch | None:
                     r.lists = _kw_parts(m, ii.get("iter"))
                     return r
                 # (b) a search helper: ``for k in KWS: if TEST(k): return k`` / ``return None``; ``if k is None: return False``
+                searched = None
                 if kterm[0] == "cond" and kterm[1][0] == "loopret" and kterm[2] == ("elem", kterm[1][1]) and kterm[3] == NONE and nf.guards_imply(guards, kterm[1]):
-                    inner = kterm[1][1]
+                    searched = kterm[1][1]
+                elif kterm[0] == "elem" and nf.guards_imply(guards, ("loopret", kterm[1])):
+                    searched = kterm[1]         # the same, already narrowed by the 'is None' test on the path
+                if searched is not None:
+                    inner = searched
                     ii = I.loops[inner]
                     node = next((x for x, _ in nf.iter_nodes(m.tree) if x[0] == "loop" and x[1] == inner), None)
                     if node is None or ii.get("conds") or ii.get("kind") != "for":
